@@ -11,6 +11,7 @@ import (
 	"fmt"
 	"os"
 	"path/filepath"
+	"sync"
 	"sync/atomic"
 	"time"
 
@@ -22,7 +23,9 @@ import (
 
 	ds "github.com/ipfs/go-datastore"
 	libp2p "github.com/libp2p/go-libp2p"
+	control "github.com/libp2p/go-libp2p-core/control"
 	crypto "github.com/libp2p/go-libp2p-core/crypto"
+	network "github.com/libp2p/go-libp2p-core/network"
 	host "github.com/libp2p/go-libp2p-core/host"
 	peer "github.com/libp2p/go-libp2p-core/peer"
 	peerstore "github.com/libp2p/go-libp2p-core/peerstore"
@@ -41,6 +44,9 @@ type RaftOpts struct {
 	BeforeConsensus func(id peer.ID, store ds.Datastore)
 	TweakRaft       func(cfg *raft.Config)
 	PutDelay        time.Duration // > 0: every Put of the pinset store takes that long (slow state arrival)
+	GateStore       bool          // writes of the pinset store block until RaftPeer.Gate.Release()
+	NetSwitch       bool          // the host gets a connection gater the harness can close (RaftPeer.Net)
+	NoAutoSnapshot  bool          // raft takes snapshots only on request (ForceSnapshot) and on shutdown
 	TweakCluster    func(cfg *ipfscluster.Config)
 	// NoCluster builds only host + raft.Consensus (C01 seam 3 child); the
 	// consensus RPC client then points at a host-less server with the fake tracker.
@@ -52,6 +58,8 @@ type RaftPeer struct {
 	Cluster *ipfscluster.Cluster
 	Cons    *raft.Consensus
 	Switch  *SwitchableConsensus
+	Gate    *StoreGate
+	Net     *NetSwitch
 	RaftCfg *raft.Config
 	Host    host.Host
 	DHT     *dual.DHT
@@ -108,6 +116,78 @@ func (s *slowStore) Put(k ds.Key, v []byte) error {
 	return s.Datastore.Put(k, v)
 }
 
+// StoreGate holds every write of a pinset store until released.
+type StoreGate struct {
+	held     chan struct{} // closed when the first write is being held
+	release  chan struct{}
+	heldOnce sync.Once
+	relOnce  sync.Once
+}
+
+// Held is closed as soon as one write is blocked.
+func (g *StoreGate) Held() <-chan struct{} { return g.held }
+
+// Release lets all held and future writes through.
+func (g *StoreGate) Release() { g.relOnce.Do(func() { close(g.release) }) }
+
+func (g *StoreGate) wait() {
+	select {
+	case <-g.release:
+		return
+	default:
+	}
+	g.heldOnce.Do(func() { close(g.held) })
+	<-g.release
+}
+
+type gatedStore struct {
+	ds.Datastore
+	g *StoreGate
+}
+
+func (s *gatedStore) Put(k ds.Key, v []byte) error { s.g.wait(); return s.Datastore.Put(k, v) }
+func (s *gatedStore) Delete(k ds.Key) error        { s.g.wait(); return s.Datastore.Delete(k) }
+
+// NetSwitch is a connection gater that can cut a host off from everybody.
+type NetSwitch struct {
+	blocked int32
+	h       host.Host
+}
+
+// Block refuses every new connection and closes the open ones.
+func (n *NetSwitch) Block() {
+	atomic.StoreInt32(&n.blocked, 1)
+	if n.h != nil {
+		for _, c := range n.h.Network().Conns() {
+			c.Close()
+		}
+	}
+}
+
+// Unblock lets connections through again.
+func (n *NetSwitch) Unblock() { atomic.StoreInt32(&n.blocked, 0) }
+
+func (n *NetSwitch) open() bool { return atomic.LoadInt32(&n.blocked) == 0 }
+
+// InterceptPeerDial implements connmgr.ConnectionGater.
+func (n *NetSwitch) InterceptPeerDial(peer.ID) bool { return n.open() }
+
+// InterceptAddrDial implements connmgr.ConnectionGater.
+func (n *NetSwitch) InterceptAddrDial(peer.ID, ma.Multiaddr) bool { return n.open() }
+
+// InterceptAccept implements connmgr.ConnectionGater.
+func (n *NetSwitch) InterceptAccept(network.ConnMultiaddrs) bool { return n.open() }
+
+// InterceptSecured implements connmgr.ConnectionGater.
+func (n *NetSwitch) InterceptSecured(network.Direction, peer.ID, network.ConnMultiaddrs) bool {
+	return n.open()
+}
+
+// InterceptUpgraded implements connmgr.ConnectionGater.
+func (n *NetSwitch) InterceptUpgraded(network.Conn) (bool, control.DisconnectReason) {
+	return n.open(), 0
+}
+
 // NewKey creates an identity.
 func NewKey() (crypto.PrivKey, peer.ID, error) {
 	priv, pub, err := crypto.GenerateKeyPair(crypto.Ed25519, 0)
@@ -144,9 +224,18 @@ func RaftConfig(dir string) *raft.Config {
 func NewRaftPeer(o RaftOpts) (*RaftPeer, error) {
 	ctx := context.Background()
 	ipfscluster.ReadyTimeout = 120 * time.Second // loaded machine: never race the peer's own start-up watchdog
-	h, err := libp2p.New(ctx, libp2p.Identity(o.Key), libp2p.ListenAddrStrings("/ip4/127.0.0.1/tcp/0"))
+	hopts := []libp2p.Option{libp2p.Identity(o.Key), libp2p.ListenAddrStrings("/ip4/127.0.0.1/tcp/0")}
+	var ns *NetSwitch
+	if o.NetSwitch {
+		ns = &NetSwitch{}
+		hopts = append(hopts, libp2p.ConnectionGater(ns))
+	}
+	h, err := libp2p.New(ctx, hopts...)
 	if err != nil {
 		return nil, err
+	}
+	if ns != nil {
+		ns.h = h
 	}
 	d, err := dual.New(ctx, h)
 	if err != nil {
@@ -154,8 +243,13 @@ func NewRaftPeer(o RaftOpts) (*RaftPeer, error) {
 		return nil, err
 	}
 	r := &RaftPeer{Host: h, DHT: d, ID: h.ID(), Dir: o.Dir, Store: inmem.New()}
+	r.Net = ns
 	if o.PutDelay > 0 {
 		r.Store = &slowStore{Datastore: r.Store, delay: o.PutDelay}
+	}
+	if o.GateStore {
+		r.Gate = &StoreGate{held: make(chan struct{}), release: make(chan struct{})}
+		r.Store = &gatedStore{Datastore: r.Store, g: r.Gate}
 	}
 	fail := func(err error) (*RaftPeer, error) {
 		if r.Cons != nil {
@@ -171,6 +265,9 @@ func NewRaftPeer(o RaftOpts) (*RaftPeer, error) {
 		return fail(err)
 	}
 	r.RaftCfg = RaftConfig(o.Dir)
+	if o.NoAutoSnapshot {
+		r.RaftCfg.RaftConfig.SnapshotThreshold = 1 << 40
+	}
 	if o.TweakRaft != nil {
 		o.TweakRaft(r.RaftCfg)
 	}
